@@ -6,7 +6,7 @@ from .. import standalone as sa
 def run(ck):
     asan = ck.build("asan", ["sess_hist"])["sess_hist"]
     thorough = ck.tier == "thorough"
-    worlds = int((1500 if thorough else 60) * ck.scale)
+    worlds = int((15000 if thorough else 60) * ck.scale)
     jobs = [dict(exe=asan, args=["--worlds", worlds, "--requests", [60, 150, 300][i % 3], "--seed", sa.subseed(ck, i), "--dir", os.path.join(ck.rundir, "s%d" % i)],
                  label="hist%d" % i, timeout=14400) for i in range(16)]
     sa.run_jobs(ck, jobs, sets=("worlds",))
